@@ -99,8 +99,9 @@ def worker_stream_reqs(prob, mode, info):
             req = f"solve {part.enc()} {cfg.enc(part)} 1000000"
             impl = f"{';'.join(nv.enc_ints(s_) for s_ in sols) if sols else '-'} {nv.enc_ints(fin)}"
         else:
-            req = f"opt {part.enc()} {cfg.enc(part)} {mode[1]} {'min' if mode[0] == 'min' else 'max'}"
-            impl = f"{'none' if not sols else nv.enc_ints(sols[-1])} {nv.enc_ints(fin)}"
+            # the whole stream of improving solutions (NucsModel/Engine/OptTrace.lean: optimizeTrace)
+            req = f"opttrace {part.enc()} {cfg.enc(part)} {mode[1]} {'min' if mode[0] == 'min' else 'max'}"
+            impl = f"{';'.join(nv.enc_ints(s_) for s_ in sols) if sols else '-'} {nv.enc_ints(fin)}"
         out.append((req, impl, {"worker": i, "part": shr}))
     return out
 
